@@ -81,6 +81,15 @@ class StandardQTomographyBasedWeightedRelativeEntropy(WeightedRelativeEntropy):
                 extend_weights += [weight] * len(prob_dist)
             self._extend_weights = np.array(extend_weights, dtype=np.float64)
 
+    def set_weights(self, weights: List[float]) -> None:
+        """sets weights and updates the extend weights.
+
+        see :func:`~quara.loss_function.weighted_relative_entropy.WeightedRelativeEntropy.set_weights`
+        """
+        super().set_weights(weights)
+        if self.prob_dists_q is not None:
+            self._calc_extend_weights()
+
     def set_prob_dists_q(self, prob_dists_q: List[np.ndarray]) -> None:
         """sets vectors of ``q``, by default None.
 
